@@ -61,6 +61,12 @@ func (h *half) write(p []byte) (int, error) {
 func (h *half) read(p []byte) (int, error) {
 	h.hub.mu.Lock()
 	defer h.hub.mu.Unlock()
+	slept := false
+	defer func() {
+		if slept {
+			h.waiting--
+		}
+	}()
 	for len(h.buf) == 0 {
 		if h.closed {
 			return 0, io.EOF
@@ -71,10 +77,17 @@ func (h *half) read(p []byte) (int, error) {
 		if h.quiet != nil && h.quiet() {
 			return 0, ErrQuiescent
 		}
-		h.waiting++
-		h.hub.cond.Broadcast() // a pump going to sleep may make the session quiescent
+		if !slept {
+			// counted as asleep for the whole wait (spurious wake-ups included), announced once:
+			// a proxy pump going to sleep may make the session quiescent, the harness ends
+			// re-evaluate; harness-side readers never announce, so wake-ups cannot ping-pong
+			slept = true
+			h.waiting++
+			if h.quiet == nil {
+				h.hub.cond.Broadcast()
+			}
+		}
 		h.hub.cond.Wait()
-		h.waiting--
 	}
 	n := copy(p, h.buf)
 	h.buf = h.buf[n:]
